@@ -44,6 +44,15 @@ func entry[T any](x T) T { return x }
 // contract file (lemma: the two copies agree).
 func VerifDecodeRenderContext(c Context) (ast.Context, bool, bool) { return decodeRenderContext(c) }
 
+// The VM's operand decoders, exposed for the same purpose.
+func VerifDecodeInt16(a, b int8) int16      { return decodeInt16(a, b) }
+func VerifDecodeUint16(a, b int8) uint16    { return decodeUint16(a, b) }
+func VerifDecodeUint24(a, b, c int8) uint32 { return decodeUint24(a, b, c) }
+func VerifDecodeValueIndex(a, b int8) (int8, int) {
+	t, i := decodeValueIndex(a, b)
+	return int8(t), i
+}
+
 // ---- spec functions ----
 
 func specIsHexDigit(c byte) bool {
@@ -525,11 +534,22 @@ func lastErr(f string) error { return nil }
 func specAsPanic(e any) *PanicError { p, _ := e.(*PanicError); return p }
 func specAsFatal(e any) *fatalError { p, _ := e.(*fatalError); return p }
 
+// (runFunc is applied through this contract in VM.Run; the first two clauses
+// are trusted there. Its own body is checked for the C12 clause below: an error
+// that is not a *PanicError - the error given to Stop, a *fatalError - ends
+// the run and is returned as it is, whatever panics are pending.)
 //@ func (*VM).runFunc
+//@   props X00 C12
+//@   opt track runRecoverable
+//@   opt stable VM env
+//@   requires vm.env != nil
+//@   ensures[X00] specIsPanicErr(result) ==> specAsPanic(result) != nil
+//@   ensures[X00] specIsFatal(result) ==> specAsFatal(result) != nil
+//@   ensures[C12] lastErr("runRecoverable") != nil && !specIsPanicErr(lastErr("runRecoverable")) ==> result == lastErr("runRecoverable")
+
+//@ func (*VM).runRecoverable
 //@   props X00
 //@   trusted
-//@   ensures specIsPanicErr(result) ==> specAsPanic(result) != nil
-//@   ensures specIsFatal(result) ==> specAsFatal(result) != nil
 
 // VM.Run: the error given to Stop is returned itself; Fatal(v) makes Run panic
 // with v; a failed write is returned as the writer's error; everything else
